@@ -22,7 +22,7 @@ def rebuild (a : CAcc) : CAcc := { a with cs := cinit (a.nthreads - 1) a.decls a
 
 def stName : TpSt → String
   | .notAdded => "notAdded" | .adding => "adding" | .earlyCb => "earlyCb" | .earlyDec => "earlyDec"
-  | .added => "added" | .inCb => "inCb" | .done => "done"
+  | .added => "added" | .inCb => "inCb" | .inCbN => "inCbN" | .done => "done"
 
 def describe (a : CAcc) (t : Nat) : String :=
   let s := a.cs.base
@@ -70,6 +70,7 @@ partial def rmw (a : CAcc) (t : Nat) : Option CAcc :=
       | some a' => fire a' (.ctx (.addInc t))
       | none => (fire a (.ctx (.addReturn t))).bind (fun a' => rmw a' t)
     | none => (fire a (.ctx (.addReturn t))).bind (fun a' => rmw a' t)
+  | some (.ncb _) => fire a (.ctx (.nestDec t))
   | some .none =>
     match s.bases[t]? with
     | some (.cb _) => fire a (.ctx (.dec t))
@@ -101,7 +102,7 @@ def stepD (a : CAcc) : List String → CAcc × String
     match nat? cid, nats? ms with
     | some cid, some ms =>
       if cid = a.decls.length ∧ ms.length ≥ 2 ∧ ms.all (· < cid) then
-        let a' := rebuild { a with decls := a.decls ++ [mkTp 0 true false], comps := a.comps ++ [{ self := cid, members := ms }] }
+        let a' := rebuild { a with decls := a.decls ++ [mkTp 0 false true], comps := a.comps ++ [{ self := cid, members := ms }] }
         match compose ms with
         | some arr => (a', s!"n={arr.nb} term={if arr.slots[arr.nb]? == some Slot.null && !arr.oob then 1 else 0} members={if slotOk arr ms then 1 else 0}")
         | none => (a', "no-compound")
@@ -154,6 +155,8 @@ def stepD (a : CAcc) : List String → CAcc × String
         | _ => reject a "add returned before the increment" t
       | "rmw" => accept (rmw a t) a "no transition of this thread modifies active_taskpools now" t
       | "cb" =>
+        if s.subs[t]? == some (.ncb xn) then (a, "ok")     -- callback of a compound, nested in its last member's callback
+        else
         match s.subs[t]?, (s.tps[xn]?).map (fun p => p.early) with
         | some (.adding q), some true =>
           if q = xn then accept (fire a (.ctx (.earlyCb t))) a "early callback not enabled" t else reject a "callback of another taskpool inside add" t
@@ -161,6 +164,8 @@ def stepD (a : CAcc) : List String → CAcc × String
           let a0 := finishInternal a t
           accept (fire a0 (.ctx (.detect t xn))) a0 s!"completion callback of {xn} not enabled" t
       | "cbe" =>
+        if s.subs[t]? == some (.ncb xn) then (a, "ok")
+        else
         match s.bases[t]?, (s.tps[xn]?).map (fun p => p.st) with
         | some (.cb p), _ => if p = xn then (a, "ok") else reject a "end of the callback of another taskpool" t
         | _, some TpSt.earlyCb => (a, "ok")
